@@ -112,7 +112,16 @@ fn armour(der: &[u8], private: bool, arm: &str, muts: &[&str]) -> Vec<u8> {
     }
     let width = match arm { "pem_oneline" => usize::MAX, "pem_wrap76" => 76, _ => 64 };
     let nl = if arm == "pem_crlf" { "\r\n" } else { "\n" };
-    let mut s = format!("-----BEGIN {label}-----{nl}");
+    // RFC 7468 section 2: "Data before the encapsulation boundaries are permitted, and parsers MUST NOT malfunction when
+    // processing such data": what `openssl pkcs12 -nodes` writes before a key, a comment, blank lines, a byte order mark
+    let mut s = match arm {
+        "pem_bag" => format!("Bag Attributes{nl}    friendlyName: backup key{nl}    localKeyID: 01 02 03 04{nl}Key Attributes: <No Attributes>{nl}"),
+        "pem_comment" => format!("# key of the backup server, do not remove{nl}{nl}"),
+        "pem_blank" => format!("{nl}{nl}  {nl}"),
+        "pem_bom" => "\u{feff}".to_string(),
+        _ => String::new(),
+    };
+    s.push_str(&format!("-----BEGIN {label}-----{nl}"));
     let chars: Vec<char> = body.chars().collect();
     for line in chars.chunks(width.min(chars.len().max(1))) {
         s.push_str(&line.iter().collect::<String>());
@@ -120,6 +129,9 @@ fn armour(der: &[u8], private: bool, arm: &str, muts: &[&str]) -> Vec<u8> {
     }
     if !has("pem_no_end") {
         s.push_str(&format!("-----END {label}-----{nl}"));
+    }
+    if arm == "pem_trailing" {
+        s.push_str(&format!("{nl}exported on 2026-01-01{nl}"));
     }
     s.into_bytes()
 }
